@@ -24,7 +24,7 @@ RULE = ("cases drawn from one PRNG (VERIF_SEED). COMPARED line by line with the 
         "pairs, over nested structs/options/vectors/strings/numbers at range limits and Err results of every variant; "
         "op11 the same calls under truncate/flip/splice/replace of request or response bytes and status overrides "
         "(must be a value, never a panic); op12 multipart requests with good/missing/malformed boundary and damaged bodies; "
-        "op13-15 text/byte streams in and out. A case is non-trivial when its payload is non-empty; distinct = distinct case hash.")
+        "op13-15,17 text/byte streams in and out. A case is non-trivial when its payload is non-empty; distinct = distinct case hash.")
 TRUSTED = [
     "Coq 8.16.1 kernel (coqc; coqchk on the thorough tier); no axioms: all theorems of Properties_C13.v are 'Closed under the global context'",
     "extraction to OCaml with ExtrOcamlBasic only, ocamlfind ocamlopt 4.13.1, extract/driver.ml sexp I/O",
@@ -420,7 +420,10 @@ def gen_typed(rng):
         if rng.random() < 0.4:       # multi-byte characters around the old 16-byte cut
             chunks.append(C.norm("a" * rng.randint(13, 16) + rng.choice(["é", "€", "😀"]) + "b" * rng.randint(10, 20) + "ü"))
         return dict(case=[13, chunks], kind="text-stream-echo", compare=False)
-    if r < 0.96:
+    if r < 0.94:
+        return dict(case=[17, [list(rand_bytes(rng, 40)) for _ in range(rng.choice([0, 1, 2, 3, 6]))]], kind="byte-stream-in",
+                    compare=False)
+    if r < 0.97:
         return dict(case=[14, [list(rand_bytes(rng, 40)) for _ in range(rng.choice([0, 1, 2, 3, 6]))]], kind="byte-stream-out",
                     compare=False)
     chunks = []
@@ -694,6 +697,12 @@ def oracle_typed(case, impl):
         if direct != [[0, ch] for ch in case[1]]:
             return "harness: direct byte stream differs from the reference"
         return None if remote == direct else "remote byte stream differs from the direct one"
+    if op == 17:
+        remote, direct = impl
+        want = [0, [b for ch in case[1] for b in ch]]
+        if direct != want:
+            return "harness: direct byte-stream call differs from the reference"
+        return None if remote == direct else "remote call with a byte-stream argument differs from the direct call"
     if op == 15:
         remote, direct = impl
         if direct != [0, [ref_chunk(ch) for ch in case[1]]]:
@@ -933,7 +942,7 @@ def valid_case(item):
             return len(c) == 3 and _is_opt(c[1], _is_header) and _is_bytes(c[2])
         if op in (13, 15):
             return len(c) == 2 and all(_is_text(ch) for ch in c[1])
-        if op == 14:
+        if op in (14, 17):
             return len(c) == 2 and all(_is_bytes(ch) for ch in c[1])
     except Exception:
         return False
@@ -979,7 +988,9 @@ def describe(it):
         _, data, acc, ref = case[:4]
         r = None if not ref else (C.show_bytes(ref[1]) + ("?" + C.show_bytes(ref[2][0]) if ref[2] else "") +
                                   ("#" + C.show_bytes(ref[3][0]) if ref[3] else "")) if ref[0] == 1 else C.bs(ref[1])
-        return "POST /api/glue body=%r Accept=%r Referer=%r -> run_on_server" % (C.bs(data), [C.show_bytes(a) for a in acc], r)
+        sel = case[4] if len(case) > 4 else 0
+        return "%s %s body=%r Accept=%r Referer=%r -> run_on_server" % (["POST", "PATCH", "PUT"][sel], GLUE_PATHS[sel], C.bs(data),
+                                                                      [C.show_bytes(a) for a in acc], r)
     if case[0] == 16:
         return "ServerFnError<%s>::from_server_fn_error(ServerFnErrorErr::%s(%r))" % (
             ["NoCustomError", "Code"][case[1]], (KINDS + ["UnsupportedRequestMethod"])[case[2]], C.show_bytes(case[3]))
@@ -990,8 +1001,8 @@ def describe(it):
         return d + " with transport fault where=%r %r" % (["request", "response", "status"][case[4]], case[5])
     if case[0] == 12:
         return "POST upload Content-Type=%r body=%r" % ([C.bs(x) for x in case[1]], C.bs(case[2]))
-    if case[0] in (13, 14, 15):
-        return "%s(%r) remote vs direct" % ({13: "echo_text", 14: "emit_bytes", 15: "text_out"}[case[0]], [C.bs(x) for x in case[1]])
+    if case[0] in (13, 14, 15, 17):
+        return "%s(%r) remote vs direct" % ({13: "echo_text", 14: "emit_bytes", 15: "text_out", 17: "count_bytes"}[case[0]], [C.bs(x) for x in case[1]])
     if case[0] == 9:
         return "Glue{%r}: run_on_client() through the loopback vs the body called directly" % (C.show_bytes(case[1]),)
     if case[0] == 6:
